@@ -33,8 +33,11 @@ def model_case(draw):
     if src == 'block':
         spec['block'] = draw(blocks.system(n_sim=(1, 3), q_hi=60, lags=(0, 2), exos=(0, 1), consts=(0, 1), leaves=(0, 1),
                                            horizon=(2, 6), tols=('1e-6',)))
+        # a second block: the same solver object may be given new work between two reads
+        spec['block2'] = draw(blocks.system(n_sim=(1, 3), q_hi=60, lags=(0, 1), exos=(0, 1), consts=(0, 1), horizon=(2, 5),
+                                            tols=('1e-6',)))
         names = [e[0] for e in spec['block']['eqs']] + [l[0] for l in spec['block']['lags']] + \
-                [e[0] for e in spec['block']['exo']] + ['k', 't']
+                [e[0] for e in spec['block']['exo']] + ['k', 't'] + [e[0] for e in spec['block2']['eqs']][:2]
         T = spec['block']['maxtime']
     else:
         names = ['HH__F', 'GOV__T', 'GOOD__SUP_GOOD', 'k', 't', 'HH__AfterTax', 'GOV__DEM_GOOD']
@@ -48,6 +51,9 @@ def model_case(draw):
     for _ in range(draw(st.integers(4, gen.size(20, 50)))):
         k = draw(st.sampled_from(['get', 'get', 'get', 'get', 'suppress', 'mutate', 'mutate', 'cutoff', 'csv', 'get-step',
                                   'get-initial']))
+        if k == 'get' and src == 'block' and draw(st.sampled_from([False] * 9 + [True])):
+            ops.append(['resolve-other'])
+            continue
         if k == 'get-initial':
             ops.append(['get', draw(name_st), draw(st.sampled_from([None, 1, 3, 70])), 'initial'])
             continue
@@ -132,6 +138,19 @@ def run_model(spec):
                         stats['get_after_supp'] = True
                     stats['supp_get'][name] = True
                 last = got
+        elif op[0] == 'resolve-other':
+            # new results are produced on the same solver; from now on they are what every read must return
+            try:
+                es.ParseString(blocks.render(spec['block2']))
+                es.SolveEquation()
+            except Exception as ex:
+                raise Reject('second block not solved: ' + type(ex).__name__)
+            S = frozen(es.TimeSeries)
+            S_step = frozen(es.TimeSeriesStepTrace)
+            S_init = frozen(es.TimeSeriesInitialSteadyState)
+            csv_first = {}
+            last = None
+            stats['resolved'] = True
         elif op[0] == 'suppress':
             suppress = op[1]
             mod.TimeSeriesSupressTimeZero = op[1]
@@ -178,7 +197,8 @@ def run_model(spec):
         if frozen(es.TimeSeriesStepTrace) != S_step:
             raise Violation('C16/stored-trace-changed', 'after %r the stored step trace changed' % (hist,))
     score = int(stats['get_after_supp']) + int(stats['mut_then_get']) + int(stats['renders'] >= 2)
-    labels = ['src:' + spec['src']] + [k for k in ('get_after_supp', 'mut_then_get') if stats[k]]
+    labels = ['src:' + spec['src']] + [k for k in ('get_after_supp', 'mut_then_get') if stats[k]] + \
+        (['re-solved-between-reads'] if stats.get('resolved') else [])
     if stats['renders'] >= 2:
         labels.append('two-renderings')
     return {'nontrivial': score >= 2, 'labels': labels}
